@@ -1,6 +1,7 @@
 package log
 
 import (
+	"errors"
 	"math"
 	"strconv"
 	"time"
@@ -14,6 +15,14 @@ import (
 //verif:assume C07 decimal rendering of numbers is strconv's (executed natively on concrete values, trusted); a finite symbolic float is concretised to one representative per path
 //verif:assume C07 time formatting is time.Format's (native, trusted); the harness uses one concrete instant
 //verif:assume C07 encoding/json.Marshal runs natively on the concrete reflected shapes the harness passes
+
+// vBadMarshaler: MarshalJSON always fails with the given text.
+type vBadMarshaler struct{ msg string }
+
+func (b vBadMarshaler) MarshalJSON() ([]byte, error) { return nil, errors.New(b.msg) }
+
+// vJStrRaw: expected string whose exact text depends on the run-time type name; compared by suffix.
+func vJStrRaw(s string) *vJ { return &vJ{kind: 's', s: vCPs(s), rawSuffix: true} }
 
 type vArrEnc struct{ n int }
 
@@ -158,7 +167,11 @@ func vGenField(name string, depth, maxDepth int, full bool) (Field, string, *vJ)
 		return Array(key, vArrEnc{n}), key, want
 	case 13:
 		// reflected values
-		switch vChoose(name+"refl", 6) {
+		switch vChoose(name+"refl", 7) {
+		case 6:
+			// a json.Marshaler that fails with a text containing characters that need escaping
+			msg := "bad\n\"value\"\t" + vString(name+"errb", 1)
+			return Reflect(key, vBadMarshaler{msg}), key, vJStrRaw("json: error calling MarshalJSON for type log.vBadMarshaler: " + msg)
 		case 0:
 			return Reflect(key, nil), key, vJNull()
 		case 1:
